@@ -74,6 +74,8 @@ func Get
 // every temp file is fsynced before the rename that commits it (precondition of os.Rename),
 // and the directory is fsynced afterwards when AutoSync is set.
 
+pred distinct4(a string, b string, c string, d string) := a != b && a != c && a != d && b != c && b != d && c != d
+
 // ASSUMED (I/O)
 func kdir.Sync
     flags assumed
@@ -82,29 +84,40 @@ func kdir.Sync
     ensures forall d string :: d != dir ==> dirDirty[d] == old(dirDirty[d])
 
 func (Segment).Rename
-    flags noframe only_sync
+    flags noframe only_sync only_order
     requires[sync_src] !fsDirty[olds.Log] && !fsDirty[olds.Index]
     assigns fsDirty, fsExists, fsContent, dirDirty
     ensures[sync_dir] err == nil && news.AutoSync ==> !dirDirty[news.Dir]
+    // C05: on success the replacement is in place (only then may the caller remove the original)
+    ensures[order_inplace] err == nil && distinct4(olds.Log, olds.Index, news.Log, news.Index) ==> fsExists[news.Log] && fsExists[news.Index]
+    ensures[order_frame] forall p string :: p != olds.Log && p != olds.Index && p != news.Log && p != news.Index ==> fsExists[p] == old(fsExists[p])
 
 func (Segment).Override
-    flags noframe only_sync
+    flags noframe only_sync only_order
     requires[sync_src] !fsDirty[olds.Log] && !fsDirty[olds.Index]
     assigns fsDirty, fsExists, fsContent, dirDirty
     ensures[sync_dir] err == nil && news.AutoSync ==> !dirDirty[news.Dir]
+    ensures[order_inplace] err == nil && distinct4(olds.Log, olds.Index, news.Log, news.Index) ==> fsExists[news.Log] && fsExists[news.Index]
+    // C05: the stale index is gone before the log it described is replaced (a crash in between leaves
+    // a log without index, which is rebuilt, never a log with a foreign index)
+    assert[order_index_first] distinct4(olds.Log, olds.Index, news.Log, news.Index) ==> !fsExists[news.Index] at call os.Rename 1
 
 func (Segment).Remove
     flags noframe only_sync
     assigns fsExists, dirDirty
 
 func (Segment).Recover
-    flags noframe only_sync
+    flags noframe only_sync only_crash
+    // C05 crash invariant tempFresh: the temp file about to be written does not exist (a stale one
+    // left by an interrupted earlier recovery would be appended to)
+    assert[crash_tempfresh] !fsExists[s.Log + ".recover"] at call message.OpenWriter 1
     assigns fPath, fsDirty, fsExists, fsContent, dirDirty, index.Writer.pos
     loop 1
       invariant[sync] wrOK(restore)
 
 func (Segment).Migrate
-    flags noframe only_sync
+    flags noframe only_sync only_crash
+    assert[crash_tempfresh] !fsExists[s.Log + ".migrate"] at call message.OpenWriter 1
     assigns fPath, fsDirty, fsExists, fsContent, dirDirty, index.Writer.pos
     ensures[sync_dir] err == nil && s.AutoSync && fsContent[s.Log] != old(fsContent[s.Log]) ==> !dirDirty[s.Dir]
     loop 1
